@@ -289,6 +289,50 @@ fn op_classify(a: &[&str]) -> Res {
         Err(_) => "bad".into(),
     }])
 }
+/// `g1_curve_mul seed exponent_hex`: [exponent] R for a pseudo-random point R of the CURVE (not necessarily of the prime-order
+/// subgroup), the exponent being an arbitrary big-endian integer: with exponent q * h / r this is a point of small order r
+/// (or the identity: the caller retries with another seed). Returns the compressed encoding.
+fn op_g1_curve_mul(a: &[&str]) -> Res {
+    let seed = arg_usize(a, 0)? as u64;
+    let e = arg_bytes(a, 1)?;
+    use rand::{RngCore, SeedableRng};
+    let mut r = rand::rngs::StdRng::seed_from_u64(seed);
+    let base = loop {
+        let mut x = [0u8; 48];
+        r.fill_bytes(&mut x);
+        x[0] = (x[0] & 0x1f) | 0x80;
+        if let Some(p) = Option::<G1Affine>::from(G1Affine::from_compressed_unchecked(&x)) {
+            if bool::from(p.is_on_curve()) {
+                break G1Projective::from(p);
+            }
+        }
+    };
+    let mut acc = G1Projective::identity();
+    for byte in e {
+        for i in (0..8).rev() {
+            acc = acc.double();
+            if (byte >> i) & 1 == 1 {
+                acc += base;
+            }
+        }
+    }
+    Ok(vec![hex(&G1Affine::from(acc).to_compressed())])
+}
+/// `g1_add_unchecked a b`: the compressed encoding of a + b for two curve points given without subgroup check.
+fn op_g1_add_unchecked(a: &[&str]) -> Res {
+    let mut pts = Vec::new();
+    for i in 0..2 {
+        let bts = arg_bytes(a, i)?;
+        if bts.len() != 48 {
+            return Err("g1 needs 48 bytes".into());
+        }
+        let mut x = [0u8; 48];
+        x.copy_from_slice(&bts);
+        let p = Option::<G1Affine>::from(G1Affine::from_compressed_unchecked(&x)).ok_or("not on the curve")?;
+        pts.push(G1Projective::from(p));
+    }
+    Ok(vec![hex(&G1Affine::from(pts[0] + pts[1]).to_compressed())])
+}
 /// A compressed encoding of a point that is on the curve but outside the prime-order subgroup.
 fn op_offsub(a: &[&str]) -> Res {
     let g = arg_usize(a, 0)?;
@@ -653,6 +697,8 @@ pub fn dispatch(op: &str, a: &[&str]) -> Option<Res> {
         "pair_eq" => op_pair_eq(a),
         "classify" => op_classify(a),
         "offsub" => op_offsub(a),
+        "g1_curve_mul" => op_g1_curve_mul(a),
+        "g1_add_unchecked" => op_g1_add_unchecked(a),
         "ped_new" => gn!(ped_new),
         "ped_from" => gn!(ped_from),
         "ped_commit" => gn!(ped_commit),
